@@ -112,7 +112,7 @@ AllShapes0 == {"s.lit", "l.lit", "l.empty", "p.lit", "m.lit", "t.lit", "g.lit", 
 AllShapes1 == {"s.ref", "s.pre", "l.ref", "l.litref", "l.instr", "l.quoted", "p.comp", "p.rel", "p.pre", "m.ref", "m.neg", "m.eq",
                "t.ref", "t.filt", "t.lm", "g.ref", "g.arg", "n.ref", "n.tm", "n.im", "i.ref", "i.int",
                "c.name", "c.ref", "f.ref", "f.tm", "k.ref", "k.sel", "o.name", "o.ref", "x.ref", "x.str"}
-AllShapes2 == {"s.two", "l.two", "p.relcomp", "m.or", "t.seq"}
+AllShapes2 == {"s.two", "l.two", "p.relcomp", "m.or", "t.seq", "g.tt", "g.in"}
 AllCtxs    == {"data", "comp", "compn", "relsym", "pre", "int", "range", "env", "pname", "fname", "tm", "tt", "pgm", "lm", "im",
                "fc", "fm", "fsm", "fs", "ts"}
 ActCtxs    == {"data", "pname", "pgm"}      \* what the line of [act] (actor "command line") can be made of here
@@ -122,7 +122,7 @@ TypeOf(sh) == CASE sh \in {"s.lit", "s.ref", "s.pre", "s.two", "s.builtin"} -> "
                 [] sh \in {"p.lit", "p.comp", "p.rel", "p.pre", "p.relcomp", "p.builtin"} -> "path"
                 [] sh \in {"m.lit", "m.ref", "m.neg", "m.eq", "m.or"} -> "text-matcher"
                 [] sh \in {"t.lit", "t.ref", "t.filt", "t.lm", "t.seq"} -> "text-transformer"
-                [] sh \in {"g.lit", "g.ref", "g.arg"} -> "program"
+                [] sh \in {"g.lit", "g.ref", "g.arg", "g.tt", "g.in"} -> "program"
                 [] sh \in {"n.lit", "n.ref", "n.tm", "n.im"} -> "line-matcher"
                 [] sh \in {"i.lit", "i.ref", "i.int"} -> "integer-matcher"
                 [] sh \in {"c.lit", "c.name", "c.ref"} -> "files-condition"
@@ -144,6 +144,9 @@ Restr(sh) == CASE sh \in {"s.ref", "s.pre", "l.ref", "l.litref", "l.instr", "l.q
                [] sh = "m.or" -> <<"tm", "tm">>
                [] sh \in {"t.ref", "tt"} -> <<"tt">>
                [] sh = "t.seq" -> <<"tt", "tt">>
+               \* a program given as a reference to a program symbol, with a transformation / a stdin added to it
+               [] sh = "g.tt" -> <<"pgm", "tt">>
+               [] sh = "g.in" -> <<"pgm", "tsos">>
                [] sh \in {"t.lm", "n.ref", "lm"} -> <<"lm">>
                [] sh \in {"n.im", "i.ref", "im"} -> <<"im">>
                [] sh \in {"g.ref", "pgm"} -> <<"pgm">>
@@ -474,7 +477,7 @@ Val(n) ==
     [] sh = "x.str" -> <<"<">> \o Str(r1) \o <<">">>
     [] sh \in {"c.lit", "c.name", "c.ref", "f.lit", "f.ref", "f.tm", "k.lit", "k.ref", "k.sel"} -> {}
     [] sh = "g.lit" -> [args |-> <<l>>]
-    [] sh = "g.ref" -> [args |-> Val(r1).args \o <<l>>]
+    [] sh \in {"g.ref", "g.tt", "g.in"} -> [args |-> Val(r1).args \o <<l>>]
     [] sh = "g.arg" -> [args |-> Lst(r1)]
 \* a reference inside a string: strings by concatenation, a list joined by single spaces, a path as absolute path
 Str(n) == CASE ED(n).type = "string" -> Val(n) [] ED(n).type = "list" -> Join(Val(n)) [] OTHER -> Render(Val(n))
